@@ -4,6 +4,7 @@
 From Coq Require Import ZArith Reals List Bool String.
 From Flocq Require Import Core.
 From VQ Require Import Num Model.Vec Model.Scalar Proofs.ScalarProofs Glue.ScalarGlue Glue.Pin_p_fsq_quantize Glue.Pin_k_fsq_offset.
+From VQ Require Import Model.Einops Model.Layout Glue.EinopsGlue.
 Import ListNotations.
 Open Scope R_scope.
 
@@ -167,3 +168,57 @@ Theorem C05_tie_offset :
   k_fsq_offset.k_fsq_offset = pinned_k_fsq_offset.
 Proof. exact (@pin_k_fsq_offset). Qed.
 Print Assumptions C05_tie_offset.
+
+(* implicit *)
+Theorem C05_src_fsq_split :
+  forall A : Type,
+       exists p : pattern,
+         role_pattern pr_scalar.pr_scalar "FSQ.forward:z" "rearrange" 1 = @Some pattern p /\
+         wf_rearrange p = true /\
+         (forall (e : env) (X : nat -> nat -> nat -> A) (b n c d : nat),
+          (b < e "b")%nat ->
+          (n < e "n")%nat ->
+          (c < e "c")%nat ->
+          (d < e "d")%nat -> @rearr A p e (@of3 A X) [b; n; c; d] = @cb_split A (e "d") X b n c d).
+Proof. exact (@EinopsGlue.einops_fsq_split). Qed.
+Print Assumptions C05_src_fsq_split.
+
+(* implicit *)
+Theorem C05_src_fsq_merge :
+  forall A : Type,
+       exists p : pattern,
+         role_pattern pr_scalar.pr_scalar "FSQ.forward:codes" "rearrange" 0 = @Some pattern p /\
+         wf_rearrange p = true /\
+         (forall (e : env) (Q : nat -> nat -> nat -> nat -> A) (b n x : nat),
+          (b < e "b")%nat ->
+          (n < e "n")%nat ->
+          (x < e "c" * e "d")%nat -> @rearr A p e (@of4 A Q) [b; n; x] = @cb_merge A (e "d") Q b n x).
+Proof. exact (@EinopsGlue.einops_fsq_merge). Qed.
+Print Assumptions C05_src_fsq_merge.
+
+(* implicit *)
+Theorem C05_src_lfq_split :
+  forall A : Type,
+       exists p : pattern,
+         role_pattern pr_scalar.pr_scalar "LFQ.forward:x" "rearrange" 1 = @Some pattern p /\
+         wf_rearrange p = true /\
+         (forall (e : env) (X : nat -> nat -> nat -> A) (b n c d : nat),
+          (b < e "b")%nat ->
+          (n < e "n")%nat ->
+          (c < e "c")%nat ->
+          (d < e "d")%nat -> @rearr A p e (@of3 A X) [b; n; c; d] = @cb_split A (e "d") X b n c d).
+Proof. exact (@EinopsGlue.einops_lfq_split). Qed.
+Print Assumptions C05_src_lfq_split.
+
+(* implicit *)
+Theorem C05_src_lfq_merge :
+  forall A : Type,
+       exists p : pattern,
+         role_pattern pr_scalar.pr_scalar "LFQ.forward:x" "rearrange" 2 = @Some pattern p /\
+         wf_rearrange p = true /\
+         (forall (e : env) (Q : nat -> nat -> nat -> nat -> A) (b n x : nat),
+          (b < e "b")%nat ->
+          (n < e "n")%nat ->
+          (x < e "c" * e "d")%nat -> @rearr A p e (@of4 A Q) [b; n; x] = @cb_merge A (e "d") Q b n x).
+Proof. exact (@EinopsGlue.einops_lfq_merge). Qed.
+Print Assumptions C05_src_lfq_merge.
